@@ -528,6 +528,10 @@ func (e *PacketEP) WriteTo(p []byte, to net.Addr) (int, error) {
 		}
 		ua = a
 	}
+	if ua.Port == 0 {
+		// as the operating system does: a datagram can arrive from source port 0, none can be sent to port 0
+		return 0, opErr("write", "udp", os.NewSyscallError("sendto", syscall.EINVAL))
+	}
 	from := e.addr
 	if e.addr.IP == nil || e.addr.IP.IsUnspecified() {
 		from = &net.UDPAddr{IP: n.ServerIP, Port: e.addr.Port}
